@@ -37,7 +37,7 @@ const c18Timeout = "-2 -2 -2"
 
 func runC18(a hx.Args) string {
 	b, i := a.Board(0)
-	m := move.Move(a.U64(i))
+	m := hx.U2M(a.U64(i))
 	k := a.Int(i + 1)
 	if k != 0 && k != len(heur.PieceValues) {
 		return "badinput"
@@ -103,7 +103,7 @@ func runC18(a hx.Args) string {
 func c18Reparsed(b *board.Board, m move.Move) *board.Board {
 	to := m.To()
 	onEpRank := to/8 == 2 || to/8 == 5
-	if !(onEpRank && b.SquaresToPiece[m.From()] == Pawn) && (uint64(b.Colors[White])*0x9e3779b97f4a7c15+uint64(m))>>61 != 0 {
+	if !(onEpRank && b.SquaresToPiece[m.From()] == Pawn) && (uint64(b.Colors[White])*0x9e3779b97f4a7c15+hx.M2U(m))>>61 != 0 {
 		return nil
 	}
 	sq := Square(20)
@@ -300,7 +300,7 @@ func c18Emit(b *board.Board, kind, desc string, focus int, rng *hx.Rng, emit fun
 		tbl, tblKind := c18Table(rng)
 		sums, rec := c18Prefixes(b, m, tbl)
 		ts := c18Thresholds(rng, sums, tbl)
-		n := (&hx.Nums{}).U(uint64(m))
+		n := (&hx.Nums{}).U(hx.M2U(m))
 		if tblKind == "default" {
 			n.Int(0)
 		} else {
